@@ -40,7 +40,7 @@ def simple(v):
 
 
 def bindings(ns):
-    return {k: simple(v) for k, v in ns.items() if not k.startswith('_') and k not in ('TRACE', 't', 'pr', 'tn', 'boom', 'ctx', 'deco')}
+    return {k: simple(v) for k, v in ns.items() if not k.startswith('_') and k not in ('TRACE', 't', 'pr', 'tn', 'boom', 'ctx', 'deco', 'emit', 'stream', 'log')}
 
 
 def run_plain(stmts, enabled):
@@ -236,6 +236,13 @@ def gen_cases(ctx):
         for s in stmts:
             lines += s.render(rng.choice(['ps1', 'ps2']), 0)
         cases.append(('\n'.join(lines), stmts, [True] * n, {}))
+    # references to the output stream taken in one part and used in later ones (a bound write method, the stream object, a logging
+    # handler): what is written through them is output of the doctest like everything else
+    for _ in range(60 if ctx.tier == 'quick' else 1000):
+        n = rng.randint(2, 6)
+        stmts = [gendoc.Stmt('save_writer', 10)] + [gendoc.Stmt(rng.choice(['use_writer', 'use_stream', 'use_logger', 'print', 'assign', 'for']), 11 + i) for i in range(n)]
+        text, wants = gendoc.render_layout(rng, stmts, google=False, allow_prose=False, vary_indent=False)
+        cases.append((text, stmts, [True] * len(stmts), wants))
     return cases
 
 
